@@ -92,6 +92,21 @@ def gen_owner_drop(rng):
     return lines
 
 
+def pending_window_sweep(rng):
+    """a delivery that happens entirely while the poller is parked after its j-th own step, for every j of a
+    `poll_signal` call that is going to answer `Pending`: between the callback's "nothing there" and the return -
+    whatever the call still does after the callback must not eat the wake-up byte of that delivery"""
+    out = []
+    for j in range(1, 12):
+        for extra in (0, 1):
+            lines = ["setup watch 10", "setup style B", "t0 deliver 10", "t1 poll", "t1 poll", "t1 poll",
+                     "holdat t1 %d 80" % (129 + j), "delay t0 %d" % (129 + j)]
+            if extra:
+                lines.insert(3, "t0 deliver 10")
+            out.append(lines + ["seed %d" % rng.randint(1, 2**31), "maxsteps 30000"])
+    return out
+
+
 def close_window_sweep(rng):
     """a poller whose call loops twice - a wake-up byte left over from a signal that was already collected out of
     the open batch makes the callback answer `readable` for an empty batch - with close() landing at every point
